@@ -123,7 +123,13 @@ def judgeLine (j : J) (op : String) (outs : List String) : J × List String :=
       let hdr0 : List Field := match projectColumns q.list fields0 [] with | .ok (_, h) => h | _ => []
       let want? := if (Spec.sortKeys q hdr0).isNone then none else Spec.meaning (fetchOf j.st) q
       match want? with
-      | none => (j, [])      -- ill-typed / erroneous query (unknown or ambiguous column, unknown sort key): any error value will do
+      | none =>
+        -- ill-typed / erroneous query (unknown or ambiguous column, unknown sort key): any error value will
+        -- do - but a sort key that names no output column must not be answered with rows in some order
+        if (Spec.sortKeys q hdr0).isNone && !q.orderBy.isEmpty && (Spec.meaning (fetchOf j.st) q).isSome
+            && (outs.head?.getD "").startsWith "ok" then
+          (j, [s!"VIOLATION case={j.caseId} sig=exec:{cls}:unresolvable-sort-key-accepted got=[{((outs.head?.getD "").take 100).toString}] op=[{short}]"])
+        else (j, [])
       | some want =>
         match outs.head? with
         | none => (j, [s!"VIOLATION case={j.caseId} sig=exec:no-output op=[{short}]"])
